@@ -162,7 +162,10 @@ GhostNext(g0, w1, tx, ok, w2, fx) ==
 
 -----------------------------------------------------------------------------
 \* observations: the hub's State query (recomputed state) and whether all hub queries answer
-ObsOf(w0) == [rep |-> Reported(w0), qok |-> TRUE]
+ObsOf(w0) == [rep |-> Reported(w0), qok |-> TRUE,
+              withdrawable |-> [u \in Accts |-> QueryWithdrawable(w0, u)],                       \* hub WithdrawableUnbonded
+              accrued |-> [a \in Accts |-> IF DecLe(w0.rew.holders[a].idx, w0.rew.gidx)          \* reward AccruedRewards
+                                           THEN DecFloor(Accrued(w0.rew.holders[a], w0.rew.gidx)) ELSE 0]]
 InitEv == [tx |-> [k |-> "init"], ok |-> TRUE, err |-> "", fx |-> <<>>]
 Init == w = InitWorld /\ g = InitGhost /\ ev = InitEv /\ obs = ObsOf(InitWorld)
 
